@@ -5,6 +5,9 @@ from engines.symvc.discharge import run_spec
 def run(ctx):
     ctx.assume("admissible constants: E>0, -1<nu<1/2; orthotropic: moduli > 0 and positive definite compliance (leading minors)",
                "reference formulas are the textbook definitions (Hooke's law in Mandel components, compliance from engineering constants)",
-               "DEFAULT orthotropic axes convention here; the PIPE/PLATE permutations are C28's subject",
+               "DEFAULT and PIPE orthotropic axes conventions (the PIPE contracts are shared with C28: specs/C28/e2.cxx, prefix stiffness/)",
                "strict positive definiteness is proved directly as an NRA validity (eps != 0 => eps:C:eps > 0) and through the K tr^2 + 2G dev:dev identity")
     run_spec(ctx, expect_min=300)
+    # PIPE orthotropic axes convention: the stiffness contracts of specs/C28/e2.cxx (the tensors of each hypothesis are the documented
+    # axis permutation of the 3D tensor) are part of this property too
+    run_spec(ctx, src="../C28/e2.cxx", exe="e2_pipe", prefix_filter="stiffness/", expect_min=300)
